@@ -1531,10 +1531,28 @@ func runC11(c *Ctx) {
 	}
 	hdr := c.P.Func("lib", "NewHDRHistogramPlotReporter")
 	keyH := "ladder-walk:lib.NewHDRHistogramPlotReporter"
+	// the constructor may delegate to a more general one (same closure, extra parameter)
+	for hop := 0; hdr != nil && returnedClosure(hdr) == nil && hop < 3; hop++ {
+		var next *ssa.Function
+		eachInstr(hdr, func(i ssa.Instruction) {
+			if ret, isR := i.(*ssa.Return); isR && len(ret.Results) == 1 {
+				if call, isC := ret.Results[0].(*ssa.Call); isC {
+					if f := call.Call.StaticCallee(); f != nil && f.Pkg == hdr.Pkg {
+						next = f
+					}
+				}
+			}
+		})
+		if next == nil {
+			break
+		}
+		hdr = next
+	}
 	if returnedClosure(hdr) == nil {
 		c.Undecided(keyH, r3, "NewHDRHistogramPlotReporter closure not found")
 	} else {
 		fn := returnedClosure(hdr)
+		c11SplitConversion(c, fn)
 		c.Saw("function " + shortFn(fn))
 		var qcalls []*ssa.Call
 		old := inlineAware
@@ -1790,4 +1808,56 @@ func floatSliceLiteral(c *Ctx, short, name string) ([]float64, string) {
 		}
 	}
 	return nil, ""
+}
+
+// c11SplitConversion: the HDR rows print the quantile as whole units plus a fraction,
+// float64(d/U) + float64(d%U)/K. The value grows with d only when K is U: with another divisor
+// the fraction is not below one unit and the column drops each time d crosses a multiple of U.
+func c11SplitConversion(c *Ctx, cl *ssa.Function) {
+	const rule = "where the HDR reporter splits a duration into whole units and a remainder (d/U, d%U), the remainder is divided by that same U (the printed value is then non-decreasing in d)"
+	key := "split-conversion:lib.NewHDRHistogramPlotReporter"
+	var sites, bad []ssa.Instruction
+	for _, fn := range region(cl) {
+		eachInstr(fn, func(i ssa.Instruction) {
+			rem, ok := i.(*ssa.BinOp)
+			if !ok || rem.Op != token.REM || !isInteger(rem.Type()) {
+				return
+			}
+			for _, r := range refs(rem) {
+				cv, isCv := r.(*ssa.Convert)
+				if !isCv {
+					continue
+				}
+				for _, r2 := range refs(cv) {
+					q, isQ := r2.(*ssa.BinOp)
+					if !isQ || q.Op != token.QUO || q.X != ssa.Value(cv) {
+						continue
+					}
+					sites = append(sites, q)
+					same := stripConv(q.Y) == stripConv(rem.Y)
+					if u, isU := constInt(rem.Y); isU {
+						if k, isK := q.Y.(*ssa.Const); isK && k.Value != nil {
+							if f, _ := constant.Float64Val(constant.ToFloat(k.Value)); f == float64(u) {
+								same = true
+							}
+						}
+					}
+					if !same {
+						bad = append(bad, q)
+					}
+				}
+			}
+		})
+	}
+	sortInstrs(sites)
+	sortInstrs(bad)
+	if len(bad) > 0 {
+		c.Fail(key, rule, "the remainder of d%U is divided by something other than U: the printed value is not monotone in the latency", c.ats(bad)...)
+		return
+	}
+	if len(sites) == 0 {
+		c.Pass(key, rule, "no unit/remainder split in the HDR reporter (nothing to agree)", c.fnAt(cl))
+		return
+	}
+	c.Pass(key, rule, "remainder divided by the unit it was taken by", c.ats(sites)...)
 }
